@@ -475,7 +475,7 @@ func genC11BaseMode(r *Rng, farFuture bool) (*Plan, *HistGen) {
 		}
 		return valRelative(r)
 	}
-	g.AddForest(ForestOpts{Wide: wideC11, MaxEnts: 4, MaxDepth: 3, Mix: KeyMix{EC: 1, Omit: 6}, MaxExts: 1, Aliases: r.Bool(), Dirs: r.Chance(1, 4), Validity: val}, r.Chance(1, 3) && !farFuture)
+	g.AddForest(ForestOpts{Bulk: 40, Wide: wideC11, MaxEnts: 4, MaxDepth: 3, Mix: KeyMix{EC: 1, Omit: 6}, MaxExts: 1, Aliases: r.Bool(), Dirs: r.Chance(1, 4), Validity: val}, r.Chance(1, 3) && !farFuture)
 	if r.Chance(9, 10) {
 		g.Run(DefaultFlags, "setup")
 	}
